@@ -34,7 +34,7 @@ func (m *JCModel) Distance(seq1 []uint8, seq2 []uint8, weights []float64) (float
 	diff = diff / total
 	b := 1. - 4.*diff/3.
 	if m.gamma {
-		dist = .75 * m.alpha * (math.Pow(b, -1./m.alpha) - 1.)
+		dist = .75 * m.alpha * (gammaPow(b, -1./m.alpha) - 1.)
 	} else {
 		dist = -.75 * math.Log(b)
 	}
